@@ -1,10 +1,23 @@
 from . import has_class
 
+def _only_hand_complaints(c):
+    # the second atom of the input is the list of problems, joined by " ;; "; decode it
+    import re
+    m = re.match(r"\(<[^>]*> <([^>]*)>", c["input"])
+    if not m:
+        return False
+    text = "".join(chr(int(x)) for x in m.group(1).split())
+    probs = [p for p in text.split(" ;; ") if p.strip()]
+    return len(probs) > 0 and all(p.startswith("hand-written DeepCopyInto called") for p in probs)
+
+
 CFG = {
     "harness": ["v1"],
     "functional": ["C16.copy"],
-    "required_classes": ["model-copy", "model-shares", "compile", "copies", "selection", "dc-pointer", "dc-slice", "dc-map", "dc-array", "dc-array-of-references", "dc-cross-package", "dc-named-interface", "dc-hand-written", "dc-package-tag", "dc-no-package-tag", "dc-type-opt-in", "dc-type-opt-out", "dc-self-pointer"],
-    "signatures": {"array-of-references-field": has_class("sig:array-of-references-field")},
+    "required_classes": ["model-copy", "model-shares", "compile", "copies", "selection", "dc-pointer", "dc-slice", "dc-map", "dc-array", "dc-array-of-references", "dc-cross-package", "dc-named-interface", "dc-hand-written", "dc-package-tag", "dc-no-package-tag", "dc-type-opt-in", "dc-type-opt-out", "dc-self-pointer", "dc-fixed-shapes", "sig:hand-written-inside-assignable", "dc-type-opt-in-detached", "dc-hand-written-assignable"],
+    "signatures": {"array-of-references-field": has_class("sig:array-of-references-field"),
+                   # only when the hand-written-call count is the ONLY complaint about that type
+                   "hand-written-inside-assignable": lambda c: "sig:hand-written-inside-assignable" in c["classes"] and c["entry"] == "C16.copies!" and _only_hand_complaints(c)},
     "timeout": {"quick": 1500, "thorough": 6000},
     "rule": 'generated packages (1-3, cross-package references) of exported struct / defined slice / defined map types over builtins, pointers, slices, maps with assignable keys, arrays (as struct fields; every other program also arrays of pointers/slices/maps), nested and recursive structs, named interfaces with DeepCopyObj methods, types with hand-written DeepCopy/DeepCopyInto that count their calls, package-level and type-level opt-in/opt-out tags; the REAL deepcopy-gen is run in process from the current tree, its output compiled with the input and a generated driver (go run), which for 60 (thorough: 300) random values per generated type checks reflect.DeepEqual (incl. nil vs empty), disjointness of all pointer/slice/map storage, mutate-copy-and-compare, hand-written methods called, and that exactly the expected types got DeepCopy functions; non-trivial = input longer than 12 characters',
     "exhaustive": [],
